@@ -268,7 +268,23 @@ def interegular_to_wfsa(pattern, charset="core", name=lambda x: x):
         m = WFSA(Float)
         m.add_I(name(fsm.initial), 1)
 
-        rejection_states = [e for e in fsm.states if not fsm.islive(e)]
+        # A state is useful only if a final state can be reached from it with single
+        # characters of the character set (`fsm.islive` ignores the character set, so
+        # e.g. the state after `x` in `x[^ab]` over the character set {a, b, x} would
+        # be kept as a dead end whose arc and final weights sum to zero).
+        live = set(fsm.finals)
+        grew = True
+        while grew:
+            grew = False
+            for i in fsm.states:
+                if i in live:
+                    continue
+                for a, j in fsm.map[i].items():
+                    if j in live and any(len(A) == 1 for A in expand_alphabet(a)):
+                        live.add(i)
+                        grew = True
+                        break
+        rejection_states = [e for e in fsm.states if e not in live]
         for i in fsm.states:
             # determine this state's fan out
             K = 0
